@@ -12,11 +12,14 @@ TokStarts(c) == LET want == Tokenize(c.q) IN
                 IF Specified(want) THEN {want[x].pos : x \in 1..Len(want)} ELSE {c.tokpos[x] : x \in 1..Len(c.tokpos)}
 Verdict(c) ==
   IF c.panic # "" THEN "rendering-panics"
+  ELSE IF c.q = <<>> /\ c.haslate /\ c.late # c.out THEN "error-text-changed-by-a-later-statement"
   ELSE IF c.ekind # "direct" /\ ~PosValid(c.q, TokStarts(c), c.pos, c.ekind) THEN
        (IF c.pos >= Len(c.q) \/ c.pos < -1 THEN "position-outside-query" ELSE "position-not-a-token-start")
   ELSE IF c.q = <<>> THEN "ok"                                \* no query bound: the plain one-line form is used
   ELSE IF c.pos < -1 \/ c.pos > Len(c.q) THEN "ok"          \* direct objects with impossible offsets: not generated
   ELSE IF ~Rendered(c.q, c.pos, c.pad, c.out) THEN "caret-misaligned"
+  \* an error is a value: printing it again after other statements were parsed, bound and printed shows the same text
+  ELSE IF c.haslate /\ c.late # c.out THEN "error-text-changed-by-a-later-statement"
   ELSE "ok"
 Init == i = 1
 Next == /\ i <= Len(Trace) /\ i' = i + 1
